@@ -68,14 +68,17 @@ template<typename S> std::string obs_theta_result(const S& r) {
   std::string o = "theta=" + std::to_string(r.get_theta64()) + " empty=" + std::to_string(r.is_empty()) + " n=" + std::to_string(e.size()) + " est=" + d2s(r.get_estimate()) + " h=" + std::to_string(sim::fnv1a(e.data(), e.size() * 8));
   return o;
 }
+// an operand that was only lent (non-const lvalue) is read again afterwards: with the instrumented summary type, reading a summary that the operation
+// moved out of it is reported by the item seam
+template<typename S> void touch_operand(const S&) {}
 // delivery forms of an input sketch: update sketch / ordered compact / unordered compact, each by reference or by move
 template<typename Op, typename U> void deliver_theta_like(Op& op, U& s, i64 pattern) {
   switch ((pattern >> 5) % 6) {
-    case 0: op.update(s); break;
+    case 0: op.update(s); touch_operand(s); break;
     case 1: op.update(std::move(s)); break;
-    case 2: { auto c = s.compact(true); op.update(c); break; }
+    case 2: { auto c = s.compact(true); op.update(c); touch_operand(c); break; }
     case 3: { auto c = s.compact(true); op.update(std::move(c)); break; }
-    case 4: { auto c = s.compact(false); op.update(c); break; }
+    case 4: { auto c = s.compact(false); op.update(c); touch_operand(c); break; }
     default: { auto c = s.compact(false); op.update(std::move(c)); break; }
   }
 }
@@ -123,6 +126,8 @@ inline TuU tuple_input(const i64* c, i64 start, i64 count, i64 pattern) {
   for (i64 j = 0; j < count; j++) { const i64 v = feed_value(start, j, count, pattern); s.update(static_cast<int64_t>(v), static_cast<i64>(1 + (v & 7))); }
   return s;
 }
+inline void touch_operand(const TuU& s) { i64 t = 0; for (auto it = s.begin(); it != s.end(); ++it) t += it->second.value(); (void)t; }
+inline void touch_operand(const TuC& s) { i64 t = 0; for (auto it = s.begin(); it != s.end(); ++it) t += it->second.value(); (void)t; }
 template<typename S> std::string obs_tuple_result(const S& r) {
   std::vector<std::pair<u64, i64>> e; for (auto it = r.begin(); it != r.end(); ++it) e.push_back(std::make_pair(it->first, it->second.value())); std::sort(e.begin(), e.end());
   u64 h = 0xcbf29ce484222325ULL; for (auto& kv : e) { h = sim::fnv1a(&kv.first, 8, h); h = sim::fnv1a(&kv.second, 8, h); }
@@ -155,7 +160,10 @@ struct TupleAnotBTr {
   static void gen_cfg(sim::Rng& r, std::vector<i64>& c, int t) { ThetaUnionTr::gen_cfg(r, c, t); }
   static Op make(const i64* c) { return Op(OP_SEEDS[c[1] % 3]); }
   static void feed(Op& op, const i64* c, i64 start, i64 count, i64 pattern) { TuU b = tuple_input(c, start % 64, count, pattern & ~7);
-    if ((pattern >> 5) & 1) op.last = op.anb.compute(std::move(op.last), b, (pattern >> 6) & 1); else { TuU a = tuple_input(c, start % 32, count * 2 + 3, 0); op.last = op.anb.compute(std::move(a), b.compact((pattern & 1) != 0), true); } }
+    if ((pattern >> 5) & 1) op.last = op.anb.compute(std::move(op.last), b, (pattern >> 6) & 1);
+    else { TuU a = tuple_input(c, start % 32, count * 2 + 3, 0);
+      if ((pattern >> 6) & 1) op.last = op.anb.compute(std::move(a), b.compact((pattern & 1) != 0), true);
+      else { TuC bc = b.compact((pattern & 1) != 0); op.last = op.anb.compute(a, bc, true); touch_operand(a); touch_operand(bc); TuC ac = a.compact((pattern & 2) != 0); op.last = op.anb.compute(ac, b, true); touch_operand(ac); touch_operand(b); } } }
   static void absorb(Op& op, const Op& o, bool) { op.last = op.anb.compute(op.last, o.last, true); }
   static void reset(Op&) {}
   static std::string obs(const Op& op) { return obs_tuple_result(op.last); }
